@@ -1323,3 +1323,39 @@ Section Indep.
     apply other_instance_invisible; [destruct Hi; assumption|exact Ha].
   Qed.
 End Indep.
+
+(* ---------------------------------------------------------------------------------------- *)
+(* closed examples used by Properties/C30.v                                                  *)
+
+Definition ex_limit (w : Z) : option Z := if w =? 0 then Some 1 else if w =? 1 then Some 2 else None.
+
+(* instance 0 (N=1): run 1 admitted, runs 2 and 3 queue; instance 1 (N=2) admits 4 and 5 meanwhile;
+   1 finishes -> permit handed to 2; 2 is cancelled before it resumes -> permit goes on to 3 *)
+Definition ex_sched : list act :=
+  [AStart 1 0; AStart 2 0; AStart 3 0; ARun 1; ARun 2; ARun 3; AEnter 1;
+   AStart 4 1; AStart 5 1; ARun 4; ARun 5; AEnter 4; AEnter 5;
+   AExit 1; AFinish 1; ACancel 2; ARun 2; ARun 3; AEnter 3].
+
+Lemma example_run :
+  let s := exec ex_limit init ex_sched in
+  executing 0 s = 1%nat /\ executing 1 s = 2%nat /\
+  alookup 2 (runs s) = Some (mkRun 0 PDone true) /\
+  alookup 3 (runs s) = Some (mkRun 0 (PHolding 1) false) /\
+  alookup 0 (sems s) = Some (mkSem 0 []).
+Proof. vm_compute. repeat split; reflexivity. Qed.
+
+Lemma example_waiting_rank :
+  W 0 3 2 (exec ex_limit init (firstn 6 ex_sched)) /\
+  count_releases ex_limit (exec ex_limit init (firstn 6 ex_sched))
+    [AEnter 1; AExit 1; AFinish 1; ARun 2; AEnter 2; AExit 2; AFinish 2] 0 = 2%nat.
+Proof.
+  split; [|vm_compute; reflexivity].
+  exists (mkRun 0 PWaiting false), (mkSem 0 [(2, FPending); (3, FPending)]).
+  vm_compute. repeat split; reflexivity.
+Qed.
+
+Lemma example_handoff_in_flight :
+  let s := exec ex_limit init (firstn 15 ex_sched) in
+  alookup 0 (sems s) = Some (mkSem 0 [(2, FWoken); (3, FPending)]) /\ holders 0 s = 0%nat.
+Proof. vm_compute. split; reflexivity. Qed.
+
